@@ -120,7 +120,7 @@ package satisfaction_levels
 //@   assigns s
 //@   ensures [criteria] s.criteria == dmp.Criteria && len(s.criteriaValuesRanges) == len(dmp.Criteria)
 //@   ensures [ranges_declared] forall k int :: 0 <= k && k < len(dmp.Criteria) && dmp.Criteria[k].ValuesRange != nil ==> s.criteriaValuesRanges[k] == *dmp.Criteria[k].ValuesRange
-//@   ensures [ranges_observed] forall k int :: 0 <= k && k < len(dmp.Criteria) && dmp.Criteria[k].ValuesRange == nil ==>
+//@   ensures [ranges_observed reveal:observed] forall k int :: 0 <= k && k < len(dmp.Criteria) && dmp.Criteria[k].ValuesRange == nil ==>
 //@              observedRange(s.criteriaValuesRanges[k], dmp.ConsideredAlternatives, dmp.NotConsideredAlternatives, dmp.Criteria[k].Id)
 //@   ensures [start] s.currentValue == initval(old(s.manager), old(s.MinValue), old(s.MaxValue))
 //@   ensures [params_kept] s.Coefficient == old(s.Coefficient) && s.MaxValue == old(s.MaxValue) && s.MinValue == old(s.MinValue) && s.manager == old(s.manager)
